@@ -186,7 +186,11 @@ fn src(d: &[u8], rbuf: u32) -> RSrc<'_> {
 /// flags anyway as soon as it exceeds the number of shapes written.
 fn drain_to_first_err<S: ToGeom, I: Iterator<Item = Result<S, shapefile::Error>>>(it: I, cap: usize) -> (Vec<Item>, bool) {
     let mut out = Vec::new();
-    for x in it {
+    let mut it = it;
+    loop {
+        // what `collect()` does between items: ask the iterator how much is left
+        let _ = it.size_hint();
+        let Some(x) = it.next() else { break };
         if out.len() >= cap {
             return (out, true);
         }
@@ -194,6 +198,7 @@ fn drain_to_first_err<S: ToGeom, I: Iterator<Item = Result<S, shapefile::Error>>
             Ok(s) => out.push(Ok(s.to_geom())),
             Err(e) => {
                 out.push(Err(classify(&e)));
+                let _ = it.size_hint();
                 break;
             }
         }
